@@ -46,6 +46,9 @@ def main():
         scratch = "/tmp/seedpre-results-%d" % os.getpid()
         os.makedirs(scratch, exist_ok=True)
         env = dict(os.environ, VERIF_SCRATCH_RESULTS=scratch, VERIF_DEV_OVERLAY=",".join("%s=%s" % (f, os.path.join(wt, f)) for f in files))
+        res = {"seed": os.path.basename(d), "property": meta["property"], "tier": tier, "checks": {}, "builds": True,
+               "via": "build overlay (tools/seedpre.py): the patched files were put in front of /repo's through go's -overlay while "
+                      "/repo itself was held by a thorough run; pinned tests were run by the seed's author and by tools/seedconfirm.py"}
         for c in checks:
             t0 = time.time()
             rc, o = sh("./check %s --tier %s" % (c, tier), cwd="/verif", env=env)
@@ -54,8 +57,13 @@ def main():
             drift = [ln for ln in o.splitlines() if "MODEL-DRIFT" in ln]
             print("%s on %s/%s: exit=%d violations=%d clauses=%s drift=%d (%.0fs) files=%s"
                   % (c, os.path.basename(d), pf, rc, len(viol), clauses, len(drift), time.time() - t0, files))
+            res["checks"][c] = {"exit": rc, "violations": len(viol), "clauses": clauses, "wall_s": round(time.time() - t0, 1),
+                                "tail": o.splitlines()[-1][:200] if o.splitlines() else ""}
             if rc not in (0, 1):
                 print(o[-1500:])
+        res["detected"] = any(v["exit"] == 1 and v["violations"] > 0 for v in res["checks"].values())
+        if "--record" in sys.argv:
+            json.dump(res, open(os.path.join(d, "result-%s.json" % tier), "w"), indent=1)
     finally:
         sh("git -C /repo worktree remove --force %s; rm -rf /tmp/seedpre-results-%d" % (wt, os.getpid()))
 
